@@ -62,7 +62,7 @@ theorem progExec_local (prog : Key → Option Expr) : ExecLocal (progExec prog) 
 /-- one input key `0`, one derived key `1 = input 0 + 100` -/
 def wProg : Key → Option Expr := fun k => if k = 1 then some (.add (.read 0) (.const 100)) else none
 
-/-- the order of the code as it is, FIFO lock -/
+/-- HISTORICAL (F5, fixed by 7a67ce5): the order of the code as it WAS (`lockFirst := false`), FIFO lock -/
 def wCfg : Cfg := { lockFirst := false, fair := true, exec := progExec wProg }
 
 /-- task 0: a reader that computed key 1 earlier; task 1: the writer — one session `set 0 := 7; commit`,
